@@ -333,8 +333,18 @@ class RendezvousConnector:
     def _response_handle_message(self, msg):
         side = msg["side"]
         phase = msg["phase"]
-        assert isinstance(phase, str), type(phase)
-        body = hexstr_to_bytes(msg["body"])  # bytes
+        try:
+            # the server relays whatever a mailbox participant posted. Our
+            # peer only posts ASCII side/phase labels and a hex body:
+            # anything else cannot be one of its messages
+            if not isinstance(side, str) or not isinstance(phase, str):
+                raise TypeError(type(side), type(phase))
+            side.encode("ascii")
+            phase.encode("ascii")
+            body = hexstr_to_bytes(msg["body"])  # bytes
+        except (AssertionError, TypeError, ValueError):
+            self._debug("R.rx: ignoring malformed message")
+            return
         self._M.rx_message(side, phase, body)
 
     def _response_handle_released(self, msg):
